@@ -8,6 +8,17 @@ import (
 	"verif/world"
 )
 
+// digitsOf keeps the decimal digits of a submitted code.
+func digitsOf(s string) string {
+	var b []byte
+	for i := 0; i < len(s); i++ {
+		if s[i] >= '0' && s[i] <= '9' {
+			b = append(b, s[i])
+		}
+	}
+	return string(b)
+}
+
 type c12mon struct {
 	stats    *sim.Stats
 	lastTOTP map[string]string // pid → last accepted TOTP code
@@ -135,14 +146,23 @@ func (m *c12mon) Check(s *sim.Sim, st *sim.Step) []*sim.Violation {
 			}
 		}
 		if kind == "totp" && a.Secret2 == "" && U != "" {
+			// the code is its digits: "123456", "123456 " and "123 456" are spellings of one code
+			code := digitsOf(a.Secret)
 			if accepted {
-				if s.Cfg.OneTimeTOTP && m.lastTOTP[U] == a.Secret {
-					vs = append(vs, vio("C12", "totp-code-accepted-twice-in-a-row", "with replay protection enabled the same TOTP code was accepted twice in a row for %q", U))
+				if s.Cfg.OneTimeTOTP && m.lastTOTP[U] == code && code != "" {
+					sp := "verbatim"
+					if a.Secret != code {
+						sp = "respelled:" + a.Cls
+					}
+					vs = append(vs, vio("C12", "totp-code-accepted-twice-in-a-row|"+sp, "with replay protection enabled the same TOTP code was accepted twice in a row for %q (second submission %q)", U, a.Secret))
 				}
-				m.lastTOTP[U] = a.Secret
+				m.lastTOTP[U] = code
 				m.stats.Count("totp-accepted")
-			} else if s.Cfg.OneTimeTOTP && m.lastTOTP[U] == a.Secret && a.Secret != "" {
+			} else if s.Cfg.OneTimeTOTP && m.lastTOTP[U] == a.Secret && code != "" {
 				m.stats.Count("totp-replay-rejected")
+			} else if s.Cfg.OneTimeTOTP && m.lastTOTP[U] == code && code != "" && strings.TrimSpace(a.Secret) == code {
+				// the same code with surrounding whitespace, refused: still "in a row"
+				m.stats.Count("totp-respelled-replay-rejected")
 			} else if a.Secret != m.lastTOTP[U] {
 				// any attempt with another input (a wrong code, an empty one) ends the "in a row"
 				m.lastTOTP[U] = "\x00other"
@@ -292,6 +312,18 @@ var c12Templates = []sim.Template{
 		again := map[string]string{"ok": "ok", "recovery": "recovery_spent"}[first]
 		return []*sim.Action{act("login", 0, v, "ok"), act("hooknext", 0, -9, "", "mode", pickS(s.R, "handled", "handled", "error")), act(kv, 0, -9, first),
 			act("login", 1, v, "ok"), act(kv, 1, -9, again), act(kv, 1, -9, again), act(kv, 1, -9, "ok")}
+	}},
+	{Name: "totp-same-code-in-another-spelling", F: func(s *sim.Sim) []*sim.Action {
+		// the code that just completed a login, presented again with surrounding whitespace or a separator
+		if !s.Cfg.Has2FA("totp") || !s.Cfg.Has("auth") {
+			return nil
+		}
+		v := findAcct(s, func(u *world.User) bool { return u.TOTPSecretKey != "" && u.Confirmed })
+		if v < 0 {
+			return nil
+		}
+		return []*sim.Action{act("login", 0, v, "ok"), act("totp_validate", 0, -9, "cur"), act("login", 1, v, "ok"), act("totp_validate", 1, -9, pickS(s.R, "cur_ws", "cur_ws", "cur_sep")),
+			act("totp_validate", 1, -9, pickS(s.R, "cur_ws", "cur_sep", "cur")), act("totp_validate", 1, -9, "cur")}
 	}},
 	{Name: "totp-same-code-twice", F: func(s *sim.Sim) []*sim.Action {
 		if !s.Cfg.Has2FA("totp") || !s.Cfg.Has("auth") {
